@@ -136,6 +136,7 @@ fn c18_ssh_2_0_free9() {
 //# cover: banner answered
 //# cover: banner not answered
 #[kani::proof]
+#[kani::stub(::log::__private_api::loc, crate::verif_util::log_loc_stub)]
 #[kani::unwind(20)]
 fn c01_ssh_2_0_warn() {
     ssh_banner(b"SSH-2.0", 5, log::LevelFilter::Warn)
